@@ -6,6 +6,8 @@ import Cel.Model.RuntimeThreads
     <pol> <query> <thread> | <thread> | …        pol: p (per-call) | s (shared)
     query:  E <b>   every segmented schedule with at most b preemption segments → the set of outcomes of every thread
             G       thread 0 runs to its first host-function call, the others run to their end (in order), thread 0 resumes
+            H <r>   hold schedule: every thread in turn runs to its call of `gate` (or to its end); then the threads are released in
+                    the order r (comma-separated thread numbers, `-` for none), each running to its end; then the rest
     thread: C|I <n> name val … <stmt> , <stmt> , …          values i:5 b:1
     stmt:   def n <exp> | celn n | cell <exp>
     exp (prefix): lit v | var x | bin op A B | not A | and A B | or A B | cond C A B | res n | call n | catch A | host f A
@@ -91,7 +93,7 @@ def mkState (ths : List (Kind × TState)) : MState :=
       | none => { todo := [], mine := [], out := some (.err "nothread") },
     kinds := fun i => match ths[i]? with | some x => x.1 | none => .I }
 
-def fuel : Nat := 4000
+def fuel : Nat := 40000
 
 /-- number of visible steps of a thread's evaluation alone -/
 def visibleCount (ts : TState) : Nat := Id.run do
@@ -141,20 +143,30 @@ def gateRun (pol : NamespacePolicy) (ths : List (Kind × TState)) : String :=
   let m3 := runToEnd pol 0 fuel m2
   String.intercalate " " ((List.range n).map fun t => s!"{t}=" ++ showCV (m3.threads t).out)
 
+def holdRun (pol : NamespacePolicy) (ths : List (Kind × TState)) (release : List Nat) : String :=
+  let n := ths.length
+  let m := runHold pol fuel n (mkState ths) release
+  String.intercalate " " ((List.range n).map fun t => s!"{t}=" ++ showCV (m.threads t).out)
+
+def parseRelease (s : String) : Option (List Nat) :=
+  if s == "-" then some [] else (s.splitOn ",").mapM String.toNat?
+
 def handle : Handler
   | pol :: q :: rest =>
     let pol? := match pol with | "p" => some NamespacePolicy.perCall | "s" => some .shared | _ => none
-    let (b?, body) := match q, rest with
-      | "E", b :: r => (b.toNat?, r)
-      | _, r => (some 0, r)
-    match pol?, b?, (splitOn "|" body []).mapM parseThread with
-    | some pol, some b, some ths =>
+    let (b?, rel?, body) := match q, rest with
+      | "E", b :: r => (b.toNat?, some [], r)
+      | "H", rl :: r => (some 0, parseRelease rl, r)
+      | _, r => (some 0, some [], r)
+    match pol?, b?, rel?, (splitOn "|" body []).mapM parseThread with
+    | some pol, some b, some rel, some ths =>
       if q == "G" then gateRun pol ths
+      else if q == "H" then holdRun pol ths rel
       else if q == "E" then
         let vis := ths.map fun x => visibleCount x.2
         outcomes pol ths (segLists ths.length vis b none)
       else "bad-op"
-    | _, _, _ => "bad-op"
+    | _, _, _, _ => "bad-op"
   | _ => "bad-op"
 
 end Cel.Drv.C16
